@@ -639,3 +639,181 @@ def ctor_family(seed, n):
                     "%d unphysical / malformed constructor calls that must raise ValueError (all 11 kinds: efficiency, dropout, zero load resistance, malformed / mismatched / non-monotonic tables, negative tabulated ig, malformed limits, non-numeric rs lists) + seeded sign-normalisation twins (scalar, list and table forms) compared in a solved probe system" % nrej,
                     "%d rejections (exhaustive list) + %d random twins" % (nrej, n))
     return res
+
+
+# ============================================================================================================ C10
+TABLE_FORMS = [("Converter", "eff", {"vo": 3.3}, (0.55, 1.0)), ("VLoss", "vdrop", {}, (0.0, 0.4)), ("LinReg", "ig", {"vo": 2.5}, (0.0, 0.01)), ("PSwitch", "ig", {}, (0.0, 0.01)),
+               ("PMux", "ig", {}, (0.0, 0.01)), ("RectD", "vdrop", {}, (0.05, 0.4)), ("RectM", "ig", {}, (0.0, 0.01))]
+
+
+def interp_case(args):
+    seed, idx = args
+    rnd = _rnd(seed, idx)
+    kind, key, extra, (lo, hi) = TABLE_FORMS[idx % len(TABLE_FORMS)]
+    ni, nv = rnd.randint(2, 5), rnd.choice([1, 1, 2, 3, 4])
+    io = sorted(rnd.sample([0.0, 0.001, 0.005, 0.02, 0.1, 0.3, 0.8, 1.5, 3.0], ni))
+    vi = sorted(rnd.sample([1.8, 3.3, 5.0, 9.0, 12.0, 24.0, 48.0], nv))
+    if rnd.random() < 0.3: vi = vi[::-1]
+    const = rnd.random() < 0.2
+    cval = round(rnd.uniform(lo, hi), 4)
+    tb = [[(cval if const else round(rnd.uniform(lo, hi), 5)) for _ in io] for _ in vi]
+    tbl = {"vi": vi, "io": io, key: tb}
+    spec = {"kind": kind, "name": "X", "args": dict(extra, **{key: tbl})}
+    out = {"hash": _hash(spec), "failures": [], "nontrivial": True, "sample": None, "outcome": "interp"}
+    def F(k, text): out["failures"].append({"key": k, "text": text, "props": ["C10"], "table": tbl, "component": kind})
+    try:
+        comp = gen.make_comp(spec)
+    except Exception as e:
+        F("interp.reject", "well-conditioned %dx%d table rejected: %s" % (nv, ni, e)); return out
+    f = lambda x, y: float(comp._ipr._interp(x, y))
+    order = sorted(range(nv), key=lambda j: vi[j]); vs = [vi[j] for j in order]; zs = [tb[j] for j in order]
+    import math
+    # on the grid
+    for a, v in enumerate(vs):
+        for b, i_ in enumerate(io):
+            got = f(i_, v)
+            if math.isnan(got) or not oracle.close(got, zs[a][b], 1e-9, 1e-12): F("interp.grid", "value at grid point (io=%g, vi=%g) is %r, tabulated %r" % (i_, v, got, zs[a][b]))
+    # along grid lines: linear in io at a tabulated vi (and for 1-D tables at any vi)
+    for _ in range(6):
+        a = rnd.randrange(nv); x = rnd.uniform(io[0], io[-1])
+        want = oracle.interp_1d(io, zs[a], x)
+        got = f(x, vs[a] if nv > 1 else rnd.choice([0.0, 3.3, 100.0]))
+        if math.isnan(got) or not oracle.close(got, want, 1e-7, 1e-10): F("interp.line", "along vi=%g at io=%g: %r, linear interpolation gives %r" % (vs[a], x, got, want))
+    if nv > 1:
+        for _ in range(6):
+            b = rnd.randrange(ni); y = rnd.uniform(vs[0], vs[-1])
+            want = oracle.interp_1d(vs, [zs[a][b] for a in range(nv)], y)
+            got = f(io[b], y)
+            if math.isnan(got) or not oracle.close(got, want, 1e-7, 1e-10): F("interp.line", "along io=%g at vi=%g: %r, linear interpolation gives %r" % (io[b], y, got, want))
+        # inside a cell: within the range of its corner values
+        for _ in range(8):
+            x, y = rnd.uniform(io[0], io[-1]), rnd.uniform(vs[0], vs[-1])
+            lo_, hi_ = oracle.cell_range_2d({"io": io, "vi": vs, key: zs}, key, x, y)
+            got = f(x, y)
+            if math.isnan(got) or got < lo_ - 1e-9 or got > hi_ + 1e-9: F("interp.cell", "value %r at (io=%g, vi=%g) outside the corner range [%g, %g] of its cell" % (got, x, y, lo_, hi_))
+    # outside: clamped to the nearest edge value, never NaN
+    for _ in range(8):
+        x = rnd.choice([io[0] * 0.5, io[-1] * 2 + 1.0, rnd.uniform(io[0], io[-1])]); y = rnd.choice([vs[0] * 0.5, vs[-1] * 3, rnd.uniform(vs[0], vs[-1])])
+        cx, cy = min(max(x, io[0]), io[-1]), min(max(y, vs[0]), vs[-1])
+        got, want = f(x, y), f(cx, cy)
+        if math.isnan(got) or not oracle.close(got, want, 1e-9, 1e-12): F("interp.clamp", "outside the table at (io=%g, vi=%g): %r, nearest edge value %r" % (x, y, got, want))
+    # in a solved system: both polarities mirror; a constant table gives the same result as the constant
+    for pol in (1, -1):
+        def mk(sp):
+            ops = [{"op": "system", "comp": {"kind": "Source", "name": "S0", "args": {"vo": pol * rnd.choice([5.0, 12.0]), "rs": 0.0}}}]
+            if kind == "PMux":
+                ops.append({"op": "add_source", "comp": {"kind": "Source", "name": "S1", "args": {"vo": 0.0}}}); ops.append({"op": "add_comp", "parent": ["S1", "S0"], "comp": sp})
+            else: ops.append({"op": "add_comp", "parent": "S0", "comp": sp})
+            ops.append({"op": "add_comp", "parent": "X", "comp": {"kind": "ILoad", "name": "L", "args": {"ii": rnd.choice([0.004, 0.05, 0.5, 2.0])}}})
+            return {"ops": ops}
+        st = rnd.getstate(); r1 = mk(spec); rnd.setstate(st)
+        s1, _ = gen.build(r1); m = Model.of(r1)
+        o1, d1 = _solve_outcome(s1)
+        if o1 == "table":
+            for fl_ in oracle.check_table(m, d1, s1):
+                if fl_["key"] in ("row.vout", "row.iin", "row.accounting", "table.range", "row.balance"):
+                    F("interp.system:" + fl_["key"], "pol %+d: %s" % (pol, fl_["text"]))
+            if const:
+                csp = copy.deepcopy(spec); csp["args"][key] = cval
+                rnd.setstate(st); r2 = mk(csp)
+                s2, _ = gen.build(r2); o2, d2 = _solve_outcome(s2)
+                d = frames_differ(d1, d2, ["Component"]) if o2 == "table" else "constant twin: %s" % o2
+                if d: F("interp.const", "a table whose entries all equal %g behaves differently from the constant: %s" % (cval, d))
+    if idx < 3: out["sample"] = {"component": kind, "table": tbl, "verdict": "%d failures" % len(out["failures"])}
+    return out
+
+
+def interp_family(seed, n):
+    return summarize(run_pool(interp_case, [(seed, i) for i in range(n)]),
+                     "random well-conditioned 1-D / 2-D tables (1..4 vi rows incl. descending order, 2..5 io points) of eff, vdrop, ig on the seven table-capable forms: exact on grid, linear along grid lines, inside corner range, clamped outside, no NaN; in a solved probe system with both polarities; constant table == constant",
+                     "tables up to 4 x 5; ~40 query points per table")
+
+
+# ============================================================================================================ C13
+TOML_SECTION = {"Source": "source", "PLoad": "pload", "ILoad": "iload", "RLoad": "rload", "RLoss": "rloss", "VLoss": "vloss", "Converter": "converter", "LinReg": "linreg",
+                "PSwitch": "pswitch", "PMux": "pmux", "Rectifier": "rectifier"}
+MANDATORY = {"Source": ["vo"], "PLoad": ["pwr"], "ILoad": ["ii"], "RLoad": ["rs"], "RLoss": ["rs"], "VLoss": ["vdrop"], "Converter": ["vo", "eff"], "LinReg": ["vo"], "PSwitch": [], "PMux": [], "Rectifier": ["vdrop"]}
+
+
+def toml_case(args):
+    import tempfile, os, toml
+    import sysloss.components as C
+    seed, idx = args
+    rnd = _rnd(seed, idx)
+    kind = rnd.choice(["Source", "PLoad", "ILoad", "RLoad", "RLoss", "VLoss", "Converter", "LinReg", "PSwitch", "PMux", "RectD", "RectM"])
+    sp = gen.comp_spec(rnd, kind, "X", 1, p_table=0.4, p_limits=0.5, negsign=True)
+    cls = gen.cls_name(kind)
+    a = copy.deepcopy(sp["args"])
+    lim = a.pop("limits", None)
+    if cls == "Rectifier": a.setdefault("vdrop", 0.0)
+    if cls == "PMux" and rnd.random() < 0.4: a["rs"] = [0.01, 0.03]
+    if cls == "Converter" and isinstance(a["eff"], (int, float)): a["eff"] = float(a["eff"])
+    # optional keys are dropped at random: the constructor defaults must apply
+    for k in list(a):
+        if k not in MANDATORY[cls] and rnd.random() < 0.4: a.pop(k)
+    doc = {TOML_SECTION[cls]: a}
+    if lim is not None: doc["limits"] = lim
+    mode = rnd.choice(["ok", "ok", "ok", "missing", "wrongtype"])
+    if mode == "missing" and MANDATORY[cls]:
+        doc[TOML_SECTION[cls]].pop(rnd.choice(MANDATORY[cls]))
+    elif mode == "wrongtype" and cls != "LinReg":
+        k = rnd.choice(list(a) or MANDATORY[cls] or ["rt"])
+        doc[TOML_SECTION[cls]][k] = rnd.choice(["5.0", True, [1.0, 2.0]]) if k not in ("loss",) else "yes"
+        if cls in ("PMux", "Rectifier") and k == "rs" and isinstance(doc[TOML_SECTION[cls]][k], list): doc[TOML_SECTION[cls]][k] = "0.1"
+    else:
+        mode = "ok"
+    out = {"hash": _hash([cls, doc, mode]), "failures": [], "nontrivial": True, "sample": None, "outcome": mode}
+    def F(key, text): out["failures"].append({"key": key, "text": text, "props": ["C13"], "toml": doc, "kind": cls})
+    fd, p = tempfile.mkstemp(suffix=".toml"); os.close(fd)
+    try:
+        with open(p, "w") as f: toml.dump(doc, f)
+        K = getattr(C, cls)
+        try:
+            c1 = K.from_file("X", fname=p); e1 = None
+        except Exception as e:
+            c1, e1 = None, e
+        if mode == "missing":
+            if not isinstance(e1, KeyError): F("toml.missing", "%s file without a mandatory key: %s instead of KeyError" % (cls, type(e1).__name__ if e1 else "a component was built"))
+            return out
+        if mode == "wrongtype":
+            if not isinstance(e1, ValueError): F("toml.wrongtype", "%s file with a wrongly typed value %r: %s instead of ValueError" % (cls, doc[TOML_SECTION[cls]], type(e1).__name__ if e1 else "a component was built"))
+            return out
+        kw = dict(doc[TOML_SECTION[cls]])
+        if lim is not None: kw["limits"] = lim
+        try:
+            c2 = K("X", **copy.deepcopy(kw)); e2 = None
+        except Exception as e:
+            c2, e2 = None, e
+        if (e1 is None) != (e2 is None) or (e1 is not None and type(e1) != type(e2)):
+            F("toml.accept", "%s: loader %s, constructor %s" % (cls, type(e1).__name__ if e1 else "ok", type(e2).__name__ if e2 else "ok")); return out
+        if c1 is None: return out
+        if c1._params != c2._params: F("toml.params", "%s: loader _params %s != constructor _params %s" % (cls, c1._params, c2._params))
+        if c1._limits != c2._limits: F("toml.limits", "%s: loader limits %s != constructor limits %s" % (cls, c1._limits, c2._limits))
+        # same params()/limits() row and same behaviour in a solved system
+        from sysloss.system import System
+        def host(comp):
+            if cls == "Source":
+                s = System("h", comp); s.add_comp("X", comp=C.ILoad("L", ii=0.2)); return s
+            s = System("h", C.Source("S0", vo=12.0, rs=0.02))
+            s.add_comp("S0", comp=comp)
+            if cls not in ("PLoad", "ILoad", "RLoad"): s.add_comp("X", comp=C.ILoad("L", ii=0.2, rt=3.0))
+            return s
+        h1, h2 = host(c1), host(c2)
+        d = frames_differ(h1.params(limits=True), h2.params(limits=True), ["Component"])
+        if d: F("toml.paramsrow", "%s: params()/limits() row differs: %s" % (cls, d))
+        o1, d1 = _solve_outcome(h1, ta=30.0); o2, d2 = _solve_outcome(h2, ta=30.0)
+        if o1 != o2: F("toml.solve", "%s: host system with loaded component -> %s, with constructed twin -> %s" % (cls, o1, o2))
+        elif o1 == "table":
+            d = frames_differ(d1, d2, ["Component"])
+            if d: F("toml.solve", "%s: solved host system differs: %s" % (cls, d))
+    finally:
+        try: os.unlink(p)
+        except OSError: pass
+    if idx < 3: out["sample"] = {"kind": cls, "toml": doc, "mode": mode}
+    return out
+
+
+def toml_family(seed, n):
+    return summarize(run_pool(toml_case, [(seed, i) for i in range(n)]),
+                     "real TOML files written to a temp dir for all 11 kinds (scalars, lists, 1-D/2-D tables, limits, optional keys dropped at random; LinReg's own loader included): loader vs constructor twin (_params, limits, params()/limits() row, solved host system); files lacking a mandatory key -> KeyError; wrongly typed values -> ValueError",
+                     "one component per file; ~60 % well-formed, 20 % missing key, 20 % wrong type")
